@@ -3,9 +3,10 @@ package main
 func init() {
 	register(&PropCheck{
 		ID:    "C03",
-		Pkgs:  []string{"primitive"},
+		Pkgs:  []string{"primitive", "frame"},
 		FnRe:  `^VerifC03_`,
 		Level: "model_checking",
+		Gen:   func(c *CheckCtx) error { return genFrameHarnesses(c, "VerifC03_Len", `verifRoundTrip(%q, %s, verifModeC03)`) },
 		Rule:  "one harness per notation / message kind / version; a case is a feasible path of the harness (all scalar inputs symbolic); non-trivial = at least one symbolic branch or solver-discharged assertion",
 	})
 	register(&PropCheck{
@@ -15,5 +16,17 @@ func init() {
 		Level: "model_checking",
 		Gen:   genC19,
 		Rule:  "one harness per (enum type, method) generated from the constants found by go/types in the current tree, plus hand-written capability-table harnesses; a case is a feasible path; the code value is symbolic over its whole domain",
+	})
+}
+
+func init() {
+	register(&PropCheck{ID: "PROBE", Pkgs: []string{"frame"}, FnRe: `^VerifProbe_`, Level: "model_checking", Rule: "probe"})
+}
+
+func init() {
+	register(&PropCheck{
+		ID: "C01", Pkgs: []string{"frame"}, FnRe: `^VerifC01_`, Level: "model_checking",
+		Gen:  func(c *CheckCtx) error { return genFrameHarnesses(c, "VerifC01_RT", `verifRoundTrip(%q, %s, verifModeC01)`) },
+		Rule: "one harness per (message kind, protocol version); a case is a feasible path = one shape (subset of optional parts, dynamic types, lengths) with every scalar field and byte symbolic; non-trivial = has symbolic branches or solver-discharged assertions",
 	})
 }
